@@ -15,8 +15,10 @@ def _call(name, fb, chk):
     if name == "c04.p4":
         from . import common
         return m.p4(fb, chk, common.dispatch_fn(fb), "")
-    if fn in ("d1d2", "r1r2", "r3r4"):
+    if fn in ("d1d2", "r1r2", "r3r4", "d3"):
         return getattr(m, fn)(fb, chk, "")
+    if name == "c05.take_single":
+        return m.take_single_rule(fb, chk)
     if fn:
         return getattr(m, fn)(fb, chk)
     return m.run_on(fb, chk)
@@ -28,45 +30,73 @@ def has(*subs):
 
 XLIST = {
     "C01": [
+        ("c20", {"X2": ("W9", has("MsgHeader"))}, {"W9": "every specification-conformant header (size up to and including the maximum, version 1) is accepted by the receiving side's validator (C20/X2)"}),
+        ("c03.r1r2", {"R1": ("W10", has("SET_DEVICE_STATE_FD", "CHECK_DEVICE_STATE", "GET_CONFIG")), "R2": ("W10", has("SET_DEVICE_STATE_FD", "CHECK_DEVICE_STATE", "GET_CONFIG"))},
+         {"W10": "status words and in-band failure encodings of replies are the specified ones (C03/R1, R2)"}),
         ("c07", {"G1": ("W7", has("SET_LOG_BASE"))}, {"W7": "the descriptor-carrying form of SET_LOG_BASE is composed only when LOG_SHMFD was negotiated (C07/G1)"}),
         ("c08.loops", {"S2": "W8"}, {"W8": "a message delivered in several segments is decoded with the descriptors of its first byte (C08/S2)"}),
     ],
     "C02": [
+        ("c01.w6", {"W6": "D13"}, {"D13": "the caller's descriptors travel with the first byte on every attempt of the send loop (C01/W6)"}),
+        ("c01.w3", {"W3": ("D14", has("caller:"))}, {"D14": "every request header is built with the configured NEED_REPLY setting, so acknowledged calls wait for the handler (C01/W3)"}),
         ("c04", {"P1": "D10"}, {"D10": "the backend answers each request with exactly the replies the frontend call consumes (C04/P1)"}),
         ("c20", {"X2": "D11", "X1": "D11"}, {"D11": "both ends validate with the same predicates: what the frontend API accepts the backend does not drop (C20/X2)"}),
         ("c03.r3r4", {"R3": ("D12", has("GET_QUEUE_NUM"))}, {"D12": "the queue limit used by the local rejections is updated only from an accepted reply (C03/R3)"}),
     ],
     "C03": [
+        ("c08.loops", {"S2": "R10"}, {"R10": "a reply delivered in several segments keeps its descriptor and is retried, not dropped (C08/S2)"}),
+        ("c02.d3", {"D3": "R11"}, {"R11": "the Arc/Mutex/RwLock adapters forward every operation, so the device's own result is what is reported (C02/D3)"}),
         ("c20", {"X2": ("R8", has("MsgHeader"))}, {"R8": "header validators accept every message the senders may produce (C20/X2)"}),
         ("c16", {"H2": "R9"}, {"R9": "the daemon stops serving and closes the connection on a request error, so a caller waiting for a reply gets an error (C16/H2)"}),
     ],
     "C04": [
+        ("c01.w6", {"W6": "P10"}, {"P10": "replies are written completely (looping send, descriptors with the first byte) (C01/W6)"}),
+        ("c08.loops", {"S1": "P11"}, {"P11": "reply senders loop over partial writes and compare the total (C08/S1)"}),
+        ("c02.d3", {"D3": ("P12", has("ReqHandler"))}, {"P12": "the handler adapters invoke the same-named method, so the acknowledgement reports that method's result (C02/D3)"}),
+        ("c08.s7s8", {"S8": "P13"}, {"P13": "a request body arriving in several segments is read completely (C08/S8 and the looping receiver)"}),
         ("c20", {"X2": ("P7", has("MsgHeader"))}, {"P7": "well-formed headers (size up to and including the maximum) are accepted, so their requests are consumed and answered (C20/X2)"}),
         ("c03.r1r2", {"R1": "P8", "R2": "P8"}, {"P8": "reply size and payload agree for success and in-band failure encodings (C03/R1, R2)"}),
     ],
     "C06": [
+        ("c05.take_single", {"V1": ("A7", has("take_single_file"))}, {"A7": "a reply's descriptor is taken only when exactly one was attached (C05/V1 take_single_file)"}),
+        ("c08.loops", {"S2": "A8"}, {"A8": "descriptors attached to the first segment are not lost or laundered by later segments (C08/S2)"}),
         ("c08.s7s8", {"S7": "A6"}, {"A6": "a truncated reply cannot pass for a complete one: receive counts are never discarded (C08/S7)"}),
     ],
     "C10": [
+        ("c08.s4", {"S4": "L10"}, {"L10": "interrupted system calls are retried inside the transaction (errno classes, C08/S4)"}),
+        ("c07", {"G5": ("L11", has("frontend:"))}, {"L11": "the frontend awaits exactly the acknowledgements the backend writes (C07/G5)"}),
+        ("c14", {"Q5": "L12"}, {"L12": "the proxy's reply-ack setting is the negotiated one, so a proxy call never waits for an acknowledgement that is not written (C14/Q5)"}),
         ("c08.s3", {"S3": "L7"}, {"L7": "a reply is consumed completely (all segments) before the lock is released (C08/S3)"}),
         ("c18.b1", {"B1": "L8"}, {"L8": "both halves of a proxy transaction consult the same reply-ack state, held under the endpoint mutex (C18/B1)"}),
         ("c04.p4", {"P4": "L9"}, {"L9": "an acknowledgement the caller waits for (holding the lock) is always written (C04/P4)"}),
     ],
     "C12": [
+        ("c02.d3", {"D3": ("K10", has("VhostUserBackend<"))}, {"K10": "the backend adapters forward handle_event unconditionally (blocking lock), so a consumed kick is processed (C02/D3)"}),
+        ("c17", {"E2": "K11"}, {"K11": "a custom listener cannot take the exit id and stop the worker (C17/E2)"}),
         ("c17", {"E3": ("K9", has("id-source", "first-thread", "one-worker"))}, {"K9": "the registered event id and worker are the ring's own, so its wake-ups reach its handler (C17/E3)"}),
     ],
     "C13": [
         ("c20", {"X2": ("M7", has("MemoryRegion"))}, {"M7": "only regions whose guest/user/mmap ranges do not wrap are accepted into the table (C20/X2)"}),
     ],
     "C14": [
+        ("c11", {"T1": ("Q10", has("set_features"))}, {"Q10": "an accepted SET_FEATURES always delivers its effects (no early return) (C11/T1)"}),
+        ("c13", {"M1": ("Q11", lambda k: "after-commit" in k and "update_memory" not in k)}, {"Q11": "translation entries and memory table change together (C13/M1)"}),
         ("c02.d1d2", {"D2": ("Q9", has("SET_FEATURES"))}, {"Q9": "the SET_FEATURES handler receives the value on the wire, unmasked (C02/D2)"}),
     ],
     "C15": [
         ("c03.r1r2", {"R1": ("B6", has("SET_LOG_BASE"))}, {"B6": "SET_LOG_BASE is confirmed to the frontend only after the handler accepted the log (C03/R1)"}),
     ],
     "C18": [
+        ("c14", {"Q4": ("B7", has("proto-store"))}, {"B7": "the daemon records the acknowledged protocol features unmasked, so the proxy inherits REPLY_ACK (C14/Q4)"}),
+        ("c08.loops", {"S2": "B8"}, {"B8": "the acknowledgement is read with unconditional retry on EINTR/EAGAIN (C08/S2)"}),
         ("c20", {"X2": ("B5", has("MMap", "SharedMsg"))}, {"B5": "validators of the backend-request bodies accept exactly the protocol-valid encodings (C20/X2)"}),
         ("c14", {"Q5": "B6"}, {"B6": "the proxy handed to the device inherits the negotiated reply-ack setting (C14/Q5)"}),
+    ],
+    "C16": [
+        ("c08.s4", {"S4": "H7"}, {"H7": "errno classes: a closed peer (EPIPE/ECONNRESET) is a broken socket, not a retry (C08/S4)"}),
+    ],
+    "C17": [
+        ("c02.d3", {"D3": ("E4", has("VhostUserBackend<"))}, {"E4": "the backend adapters forward handle_event with its arguments unchanged (C02/D3)"}),
     ],
 }
 
